@@ -74,9 +74,9 @@ func (s *httpSource) Fetch(ctx context.Context, pid peer.ID) (*model.ProviderInf
 	}
 
 	if resp.StatusCode != http.StatusOK {
-		if resp.StatusCode != http.StatusNotFound {
-			return nil, nil
-		}
+		// Not found is reported as an API error with that status, which the
+		// cache tells from other failures; any other status is an error too,
+		// not a "no such provider".
 		return nil, apierror.FromResponse(resp.StatusCode, body)
 	}
 
